@@ -986,3 +986,288 @@ Proof.
     apply OrdL_app. exists (flat_map ib Fs), (ib b). repeat split; auto.
 Qed.
 End PCase.
+
+(* which branch P.set_contiguous takes, in terms of the counts *)
+Lemma p_cases_when v cs seq :
+  let n := length cs in
+  let nF := count_st SFull seq in let nE := count_st SEmpty seq in
+  let nPA := count_st SPartA seq in let nPU := count_st SPartU seq in
+  let setF := pick_st SFull cs seq in let setE := pick_st SEmpty cs seq in let setPA := pick_st SPartA cs seq in
+  let fullp := match setF with [] => [] | _ => [new_node KP setF] end in
+  nPA <= 2 -> (nPU = 0 \/ S nE = n) ->
+  (nF = n -> p_cases v cs seq = Ok (Node KP cs, SFull)) /\
+  (nF <> n -> nE = n -> p_cases v cs seq = Ok (Node KP cs, SEmpty)) /\
+  (nF <> n -> nE <> n -> nPU = 1 -> p_cases v cs seq = Ok (Node KP cs, SPartU)) /\
+  (nF <> n -> nE <> n -> nPU <> 1 -> nPA = 1 -> S nE = n -> p_cases v cs seq = Ok (Node KP (setE ++ setPA), SPartA)) /\
+  (nF <> n -> nE <> n -> nPU <> 1 -> ~ (nPA = 1 /\ S nE = n) -> nPA < 2 ->
+     p_cases v cs seq = Ok (Node KP (setE ++ [new_node KQ (match setPA with c :: _ => simplify v true c | [] => [] end ++ fullp)]), SPartA)) /\
+  (nF <> n -> nE <> n -> nPU <> 1 -> nPA = 2 ->
+     p_cases v cs seq = Ok (Node KP (setE ++ [new_node KQ (simplify v true (nth 0 setPA (Leaf [])) ++ fullp ++
+                                                            simplify v false (reverse (nth 1 setPA (Leaf []))))]), SPartU)).
+Proof.
+  intros n nF nE nPA nPU setF setE setPA fullp H1 H2. unfold p_cases. fold n nF nE nPA nPU setF setE setPA. cbv zeta.
+  assert (Eimp : impossible n nE nPA nPU = false).
+  { unfold impossible. apply orb_false_iff. split; [apply Nat.ltb_ge; lia|].
+    destruct H2 as [H2|H2]; [rewrite H2; reflexivity|]. apply andb_false_iff. right. apply negb_false_iff, Nat.eqb_eq. exact H2. }
+  rewrite Eimp. repeat split.
+  - intros E. apply Nat.eqb_eq in E. now rewrite E.
+  - intros E1 E2. apply Nat.eqb_neq in E1. apply Nat.eqb_eq in E2. now rewrite E1, E2.
+  - intros E1 E2 E3. apply Nat.eqb_neq in E1, E2. apply Nat.eqb_eq in E3. now rewrite E1, E2, E3.
+  - intros E1 E2 E3 E4 E5. apply Nat.eqb_neq in E1, E2, E3. apply Nat.eqb_eq in E4, E5. now rewrite E1, E2, E3, E4, E5.
+  - intros E1 E2 E3 E4 E5. apply Nat.eqb_neq in E1, E2, E3. rewrite E1, E2, E3.
+    assert (E45 : (nPA =? 1) && (S nE =? n) = false).
+    { destruct (Nat.eqb_spec nPA 1), (Nat.eqb_spec (S nE) n); simpl; auto. tauto. }
+    rewrite E45. apply Nat.ltb_lt in E5. now rewrite E5.
+  - intros E1 E2 E3 E4. apply Nat.eqb_neq in E1, E2, E3. rewrite E1, E2, E3, E4. simpl.
+    fold fullp. reflexivity.
+Qed.
+
+Lemma az_items v l : Forall (GoodItem v) l -> Forall (fun x => all_zero (wd v x) = true) l -> Forall (fun x => ist x = SEmpty) l.
+Proof. intros HG H. induction H; inversion HG; subst; constructor; auto. now apply (item_az v). Qed.
+Lemma ao_items v l : Forall (GoodItem v) l -> Forall (fun x => all_one (wd v x) = true) l -> Forall (fun x => ist x = SFull) l.
+Proof. intros HG H. induction H; inversion HG; subst; constructor; auto. now apply (item_ao v). Qed.
+
+(* the pattern returned by simplify on a partial aligned tree has blocks of both kinds *)
+Lemma SimpOK_both la v c L : proper c = true -> Partial v c -> SimpOK la v c L ->
+  exists es fs, es <> [] /\ fs <> [] /\ Forall (PureE v) es /\ Forall (PureF v) fs /\
+                Forall (fun x => proper x = true) (es ++ fs) /\ L = if la then fs ++ es else es ++ fs.
+Proof.
+  intros Hp [HnE HnF] ((es & fs & HE & HF & HL) & HpL & Hperm & _).
+  exists es, fs. assert (Hpp : Forall (fun x => proper x = true) (es ++ fs)).
+  { subst L. destruct la; [|exact HpL]. apply Forall_app in HpL. apply Forall_app. tauto. }
+  repeat split; auto.
+  - intros ->. apply HnF. unfold PureF. eapply Permutation_Forall; [apply Permutation_sym; exact Hperm|].
+    subst L. apply Forall_forall. intros s Hs. apply in_flat_map in Hs. destruct Hs as (x & Hx & Hs).
+    assert (Hxf : In x fs) by (destruct la; [now rewrite app_nil_r in Hx|exact Hx]).
+    rewrite Forall_forall in HF. specialize (HF x Hxf). unfold PureF in HF. rewrite Forall_forall in HF. auto.
+  - intros ->. apply HnE. unfold PureE. eapply Permutation_Forall; [apply Permutation_sym; exact Hperm|].
+    subst L. apply Forall_forall. intros s Hs. apply in_flat_map in Hs. destruct Hs as (x & Hx & Hs).
+    assert (Hxe : In x es) by (destruct la; [exact Hx|now rewrite app_nil_r in Hx]).
+    rewrite Forall_forall in HE. specialize (HE x Hxe). unfold PureE in HE. rewrite Forall_forall in HE. auto.
+Qed.
+
+(* the tree built by the "else" branch with two partial children is UNALIGNED-like *)
+Lemma U2_else_two v setE c0 c1 fullp :
+  Forall (fun c => proper c = true) setE -> Forall (PureE v) setE ->
+  proper c0 = true -> Al false v c0 -> Partial v c0 -> proper c1 = true -> Al false v c1 -> Partial v c1 ->
+  Forall (fun c => proper c = true) fullp ->
+  U2 v (Node KP (setE ++ [new_node KQ (simplify v true c0 ++ fullp ++ simplify v false (reverse c1))])).
+Proof.
+  intros HpE HEE Hp0 HA0 HP0 Hp1 HA1 HP1 Hpf.
+  pose proof (simplify_spec false v c0 HA0 Hp0) as S0. simpl negb in S0.
+  assert (Hp1r : proper (reverse c1) = true) by now rewrite proper_reverse.
+  pose proof (simplify_spec true v (reverse c1) (Al_reverse v c1 HA1) Hp1r) as S1. simpl negb in S1.
+  destruct (SimpOK_both false v c0 _ Hp0 HP0 S0) as (e0 & f0 & Hne0 & _ & HE0 & _ & Hpp0 & EL0).
+  destruct (SimpOK_both true v _ _ Hp1r (Partial_reverse v c1 HP1) S1) as (e1 & f1 & Hne1 & _ & HE1 & _ & Hpp1 & EL1).
+  rewrite EL0, EL1.
+  destruct e0 as [|x e0']; [congruence|]. destruct (exists_last Hne1) as (e1' & y & ->).
+  set (mid := e0' ++ f0 ++ fullp ++ f1 ++ e1').
+  assert (Enew : (x :: e0') ++ f0 ++ fullp ++ f1 ++ e1' ++ [y] = x :: mid ++ [y]).
+  { unfold mid. simpl. rewrite <- !app_assoc. reflexivity. }
+  replace (((x :: e0') ++ f0) ++ fullp ++ f1 ++ e1' ++ [y]) with (x :: mid ++ [y])
+    by (rewrite <- Enew, <- !app_assoc; reflexivity).
+  assert (Hpx : proper x = true) by (inversion Hpp0; auto).
+  assert (Hpy : proper y = true).
+  { apply Forall_app in Hpp1. destruct Hpp1 as [H _]. apply Forall_app in H. destruct H as [_ H]. now inversion H. }
+  assert (HEx : PureE v x) by now inversion HE0.
+  assert (HEy : PureE v y) by (apply Forall_app in HE1; destruct HE1 as [_ H]; now inversion H).
+  assert (Hpm : Forall (fun c => proper c = true) mid).
+  { unfold mid. inversion Hpp0 as [|? ? _ Hr0]; subst. apply Forall_app in Hr0. destruct Hr0 as [Ha Hb].
+    apply Forall_app in Hpp1. destruct Hpp1 as [Hc Hd]. apply Forall_app in Hc. destruct Hc as [Hc _].
+    repeat (apply Forall_app; split); auto. }
+  rewrite new_node_many by (simpl; rewrite app_length; simpl; lia).
+  apply U2_children; [intros E; apply app_eq_nil in E; destruct E; discriminate|].
+  apply Forall_app. split.
+  - apply Forall_forall. intros c Hc. rewrite Forall_forall in HpE, HEE. auto.
+  - constructor; [|constructor]. split.
+    + apply proper_node_iff. split; [simpl; rewrite app_length; simpl; lia|]. constructor; [exact Hpx|].
+      apply Forall_app. split; [exact Hpm|]. now constructor.
+    + right. now apply U2_Q_ends.
+Qed.
+
+Lemma cnt_E_list s l : Forall (fun x => ist x = SEmpty) l -> cnt s l = if status_eqb s SEmpty then length l else 0.
+Proof. apply cnt_all. Qed.
+Lemma cnt_F_list s l : Forall (fun x => ist x = SFull) l -> cnt s l = if status_eqb s SFull then length l else 0.
+Proof. apply cnt_all. Qed.
+
+Lemma items_E_or (v : nat) (P : item -> Prop) l l' :
+  Permutation l l' -> Forall P l' -> Forall P l.
+Proof. intros HP H. eapply Permutation_Forall; [apply Permutation_sym; exact HP|exact H]. Qed.
+
+Lemma cnt_filter_isS s l : length (filter (isS s) l) = cnt s l.
+Proof. apply cnt_filter_length. Qed.
+
+Theorem p_cases_complete v T T' :
+  2 <= length T -> Forall (GoodItem v) T -> Permutation T T' -> Interval (fun s => In v s) (flat_map ib T') ->
+  exists t' st, p_cases v (map ic T) (map ist T) = Ok (t', st) /\ Ord t' (flat_map ib T') /\ (st = SPartU -> U2 v t').
+Proof.
+  intros Hn HG HP Hint.
+  assert (HG' : Forall (GoodItem v) T') by (eapply Permutation_Forall; eassumption).
+  assert (Hshape : Shape (wd v) T').
+  { apply shape.
+    - eapply Forall_impl; [|exact HG']. intros x. apply wd_nonempty.
+    - rewrite flat_map_wd. now apply wv_contig. }
+  pose proof (p_cases_when v (map ic T) (map ist T)) as W. cbv zeta in W. rewrite map_length in W.
+  rewrite !pick_st_items in W.
+  change (count_st SFull (map ist T)) with (cnt SFull T) in W. change (count_st SEmpty (map ist T)) with (cnt SEmpty T) in W.
+  change (count_st SPartA (map ist T)) with (cnt SPartA T) in W. change (count_st SPartU (map ist T)) with (cnt SPartU T) in W.
+  fold (isS SFull) (isS SEmpty) (isS SPartA) in W.
+  rewrite (cnt_perm SFull T T' HP), (cnt_perm SEmpty T T' HP), (cnt_perm SPartA T T' HP), (cnt_perm SPartU T T' HP) in W.
+  pose proof (Permutation_length HP) as HlenT. rewrite HlenT in W, Hn.
+  assert (Hunch : forall st, st <> SPartU \/ U2 v (Node KP (map ic T)) ->
+            p_cases v (map ic T) (map ist T) = Ok (Node KP (map ic T), st) ->
+            exists t' st', p_cases v (map ic T) (map ist T) = Ok (t', st') /\ Ord t' (flat_map ib T') /\ (st' = SPartU -> U2 v t')).
+  { intros st Hst E. exists (Node KP (map ic T)), st. split; [exact E|]. split; [now apply (frontier_P v T T')|].
+    intros ->. destruct Hst; [congruence|assumption]. }
+  destruct Hshape as [l Haz|W1 w W3 H1 H3 Hc Hz|W1 w A R W3 H1 H3 HA Hzo Hz HR].
+  - (* no set contains v *)
+    pose proof (az_items v l HG' Haz) as HE.
+    rewrite !(cnt_E_list _ l HE) in W. simpl in W.
+    destruct W as (_ & Wb & _); [lia|now left|]. apply (Hunch SEmpty); [left; discriminate|]. apply Wb; lia.
+  - (* one child carries all the sets containing v *)
+    assert (HGs : Forall (GoodItem v) W1 /\ GoodItem v w /\ Forall (GoodItem v) W3).
+    { apply Forall_app in HG'. destruct HG' as [Ha Hb]. inversion Hb; subst. auto. }
+    destruct HGs as (HG1 & HGw & HG3).
+    pose proof (az_items v W1 HG1 H1) as HE1. pose proof (az_items v W3 HG3 H3) as HE3.
+    assert (HE13 : Forall (fun x => ist x = SEmpty) (W1 ++ W3)) by (apply Forall_app; auto).
+    rewrite !cnt_app, !cnt_cons, !(cnt_E_list _ W1 HE1), !(cnt_E_list _ W3 HE3) in W.
+    rewrite app_length in W, Hn. simpl in W, Hn.
+    pose proof (item_class v w HGw) as Cw.
+    destruct (ist w) eqn:Ew; simpl in W.
+    + (* full: the "else" branch without partial child *)
+      destruct W as (_ & _ & _ & _ & We & _); [lia|now left|].
+      eexists _, SPartA. split; [apply We; lia|]. split; [|discriminate].
+      assert (EF : map ic (filter (isS SFull) T) <> []).
+      { intros E. apply (f_equal (@length pq)) in E. rewrite map_length, cnt_filter_isS, (cnt_perm SFull T _ HP) in E.
+        rewrite cnt_app, cnt_cons, Ew, (cnt_E_list _ W1 HE1), (cnt_E_list _ W3 HE3) in E. simpl in E. lia. }
+      destruct (map ic (filter (isS SFull) T)) as [|f0 r0] eqn:EFl; [congruence|]. rewrite <- EFl.
+      apply (B5_complete v T (W1 ++ w :: W3) HG HP W1 [w] W3 [w] []);
+        [reflexivity|exact HE13|constructor; auto|discriminate|left; auto].
+    + destruct Cw. congruence.
+    + (* aligned partial, all the others empty: the children are only rearranged *)
+      destruct W as (_ & _ & _ & Wd & _); [lia|now left|].
+      eexists _, SPartA. split; [apply Wd; lia|]. split; [|discriminate].
+      apply (frontier_P v T (W1 ++ w :: W3)); auto.
+      (* T is made of its empty and of its aligned partial children *)
+      pose proof (pick_st_perm (fun _ _ => True) (map ic T) (map ist T)) as PP.
+      rewrite !pick_st_items in PP. fold (isS SFull) (isS SEmpty) (isS SPartA) (isS SPartU) in PP.
+      assert (F0 : filter (isS SFull) T = []).
+      { apply length_zero_nil. rewrite cnt_filter_isS, (cnt_perm SFull T _ HP), cnt_app, cnt_cons, Ew,
+          (cnt_E_list _ W1 HE1), (cnt_E_list _ W3 HE3). reflexivity. }
+      assert (U0 : filter (isS SPartU) T = []).
+      { apply length_zero_nil. rewrite cnt_filter_isS, (cnt_perm SPartU T _ HP), cnt_app, cnt_cons, Ew,
+          (cnt_E_list _ W1 HE1), (cnt_E_list _ W3 HE3). reflexivity. }
+      rewrite F0, U0 in PP. simpl in PP. rewrite app_nil_r in PP. apply PP.
+      clear. induction T; simpl; constructor; auto.
+    + (* unaligned partial, all the others empty: unchanged *)
+      destruct W as (_ & _ & Wc & _); [lia|right; lia|].
+      assert (Eq : p_cases v (map ic T) (map ist T) = Ok (Node KP (map ic T), SPartU)).
+      { apply Wc; [lia|lia|reflexivity]. }
+      apply (Hunch SPartU); [|exact Eq]. right.
+      apply U2_children; [intros E0; apply map_eq_nil in E0; subst T; apply Permutation_nil in HP; now destruct W1|].
+      apply Forall_map. apply (items_E_or v _ T (W1 ++ w :: W3) HP).
+      apply Forall_app. split; [|constructor].
+      * apply Forall_forall. intros x Hx. rewrite Forall_forall in HG1, HE1. destruct (HG1 x Hx) as (Hp & HS & _).
+        rewrite (HE1 x Hx) in HS. split; [exact Hp|left; exact HS].
+      * destruct HGw as (Hp & _ & _ & HU). split; [exact Hp|right; now apply HU].
+      * apply Forall_forall. intros x Hx. rewrite Forall_forall in HG3, HE3. destruct (HG3 x Hx) as (Hp & HS & _).
+        rewrite (HE3 x Hx) in HS. split; [exact Hp|left; exact HS].
+  - (* a run of children *)
+    assert (HGs : Forall (GoodItem v) W1 /\ GoodItem v w /\ Forall (GoodItem v) A /\ Forall (GoodItem v) R /\ Forall (GoodItem v) W3).
+    { apply Forall_app in HG'. destruct HG' as [Ha Hb]. inversion Hb as [|? ? Hw Hb']; subst.
+      apply Forall_app in Hb'. destruct Hb' as [Hb1 Hb2]. apply Forall_app in Hb2. destruct Hb2. auto. }
+    destruct HGs as (HG1 & HGw & HGA & HGR & HG3).
+    pose proof (az_items v W1 HG1 H1) as HE1. pose proof (az_items v W3 HG3 H3) as HE3.
+    pose proof (ao_items v A HGA HA) as HFA.
+    assert (HE13 : Forall (fun x => ist x = SEmpty) (W1 ++ W3)) by (apply Forall_app; auto).
+    assert (Hw : ist w = SFull \/ ist w = SPartA).
+    { pose proof (item_class v w HGw) as Cw. destruct (ist w) eqn:Ew; auto.
+      - destruct Cw. congruence.
+      - exfalso. exact (U2_not_zo v w HGw Ew Hzo). }
+    assert (HR' : R = [] \/ exists w', R = [w'] /\ ist w' = SPartA /\ ones_zeros (wd v w') = true).
+    { destruct HR as [->|(w' & -> & Ho & Hno & Hnz)]; [now left|]. right. exists w'. split; [reflexivity|].
+      inversion HGR as [|? ? HGw' _]; subst. pose proof (item_class v w' HGw') as Cw. split; [|exact Ho].
+      destruct (ist w') eqn:Ew; auto; try (destruct Cw; congruence).
+      exfalso. exact (U2_not_oz v w' HGw' Ew Ho). }
+    assert (ET' : W1 ++ w :: A ++ R ++ W3 = W1 ++ (w :: A ++ R) ++ W3) by (simpl; now rewrite <- app_assoc).
+    rewrite !cnt_app, !cnt_cons, !cnt_app, !(cnt_E_list _ W1 HE1), !(cnt_E_list _ W3 HE3), !(cnt_F_list _ A HFA) in W.
+    rewrite !app_length in W, Hn. simpl in W, Hn. rewrite !app_length in W, Hn.
+    destruct Hw as [Ew|Ew]; destruct HR' as [->|(w' & -> & Ew' & Ho')]; rewrite Ew in W; try rewrite !cnt_cons, Ew' in W;
+      simpl in W; rewrite ?cnt_nil in W; simpl in W.
+    + (* full children only *)
+      assert (HFs : Forall (fun x => ist x = SFull) (w :: A)) by (constructor; auto).
+      destruct (Nat.eq_dec (length W1 + length W3) 0) as [E0|E0].
+      * destruct W as (Wa & _); [lia|now left|]. apply (Hunch SFull); [left; discriminate|]. apply Wa. lia.
+      * destruct W as (_ & _ & _ & _ & We & _); [lia|now left|].
+        eexists _, SPartA. split; [apply We; lia|]. split; [|discriminate].
+        assert (EF : map ic (filter (isS SFull) T) <> []).
+        { intros E. apply (f_equal (@length pq)) in E. rewrite map_length, cnt_filter_isS, (cnt_perm SFull T _ HP) in E.
+          rewrite !cnt_app, cnt_cons, Ew, cnt_app in E. simpl in E. lia. }
+        destruct (map ic (filter (isS SFull) T)) as [|f0 r0] eqn:EFl; [congruence|]. rewrite <- EFl.
+        apply (B5_complete v T _ HG HP W1 (w :: A) W3 (w :: A) []);
+          [(simpl; rewrite <- ?app_assoc; reflexivity)|exact HE13|exact HFs|discriminate|left; auto].
+    + (* full children, then an aligned partial child whose sets with v are at its left end *)
+      assert (HFs : Forall (fun x => ist x = SFull) (w :: A)) by (constructor; auto).
+      destruct W as (_ & _ & _ & _ & We & _); [lia|now left|].
+      eexists _, SPartA. split; [apply We; lia|]. split; [|discriminate].
+      assert (EF : map ic (filter (isS SFull) T) <> []).
+      { intros E. apply (f_equal (@length pq)) in E. rewrite map_length, cnt_filter_isS, (cnt_perm SFull T _ HP) in E.
+        rewrite !cnt_app, cnt_cons, Ew, cnt_app in E. simpl in E. lia. }
+      destruct (map ic (filter (isS SFull) T)) as [|f0 r0] eqn:EFl; [congruence|]. rewrite <- EFl.
+      apply (B5_complete v T _ HG HP W1 (w :: A ++ [w']) W3 (w :: A) [w']);
+        [(simpl; rewrite <- ?app_assoc; reflexivity)|exact HE13|exact HFs|discriminate|right; exists w'; repeat split; auto].
+    + (* an aligned partial child whose sets with v are at its right end, then full children *)
+      destruct A as [|a0 A'].
+      * (* no full child: the children are only rearranged *)
+        destruct W as (_ & _ & _ & Wd & _); [simpl; lia|now left|].
+        eexists _, SPartA. split; [apply Wd; simpl in *; lia|]. split; [|discriminate].
+        apply (frontier_P v T _ _ HG HP).
+        pose proof (pick_st_perm (fun _ _ => True) (map ic T) (map ist T)) as PP.
+        rewrite !pick_st_items in PP. fold (isS SFull) (isS SEmpty) (isS SPartA) (isS SPartU) in PP.
+        assert (F0 : filter (isS SFull) T = []).
+        { apply length_zero_nil. rewrite cnt_filter_isS, (cnt_perm SFull T _ HP). simpl app.
+          rewrite cnt_app, cnt_cons, Ew, (cnt_E_list _ W1 HE1), (cnt_E_list _ W3 HE3). reflexivity. }
+        assert (U0 : filter (isS SPartU) T = []).
+        { apply length_zero_nil. rewrite cnt_filter_isS, (cnt_perm SPartU T _ HP). simpl app.
+          rewrite cnt_app, cnt_cons, Ew, (cnt_E_list _ W1 HE1), (cnt_E_list _ W3 HE3). reflexivity. }
+        rewrite F0, U0 in PP. simpl in PP. rewrite app_nil_r in PP. apply PP.
+        clear. induction T; simpl; constructor; auto.
+      * destruct W as (_ & _ & _ & _ & We & _); [simpl; lia|now left|].
+        eexists _, SPartA. split; [apply We; simpl in *; lia|]. split; [|discriminate].
+        assert (EF : map ic (filter (isS SFull) T) <> []).
+        { intros E. apply (f_equal (@length pq)) in E. rewrite map_length, cnt_filter_isS, (cnt_perm SFull T _ HP) in E.
+          rewrite !cnt_app, cnt_cons, Ew, cnt_app, (cnt_F_list _ _ HFA) in E. simpl in E. lia. }
+        destruct (map ic (filter (isS SFull) T)) as [|f0 r0] eqn:EFl; [congruence|]. rewrite <- EFl.
+        apply (B5_complete v T _ HG HP W1 (w :: a0 :: A') W3 (a0 :: A') [w]);
+          [(simpl; rewrite <- ?app_assoc; reflexivity)|exact HE13|exact HFA|discriminate|right; exists w; repeat split; auto].
+    + (* two aligned partial children around the full ones *)
+      destruct W as (_ & _ & _ & _ & _ & Wf); [lia|now left|].
+      eexists _, SPartU. split; [apply Wf; lia|]. split.
+      * apply (B6_complete v T _ HG HP W1 W3 A w w'); auto; simpl; rewrite <- ?app_assoc; reflexivity.
+      * intros _.
+        (* the two partial children of T *)
+        assert (PPA : Permutation (filter (isS SPartA) T) [w; w']).
+        { etransitivity; [apply filter_perm; exact HP|]. rewrite ET'. rewrite filter_isS_E_run; [|discriminate|exact HE13].
+          rewrite (filter_isS_cons_eq SPartA w _ Ew), filter_app, (filter_isS_cons_eq SPartA w' [] Ew').
+          now rewrite (filter_isS_all SFull SPartA A HFA). }
+        assert (HGPA : forall x, In x (filter (isS SPartA) T) -> proper (ic x) = true /\ Al false v (ic x) /\ Partial v (ic x)).
+        { intros x Hx. apply filter_In in Hx. destruct Hx as [Hx Hs]. unfold isS in Hs. apply status_eqb_eq in Hs.
+          rewrite Forall_forall in HG. destruct (HG x Hx) as (Hp & HS & _). rewrite <- Hs in HS. simpl in HS. tauto. }
+        apply Permutation_sym, Permutation_length_2_inv in PPA.
+        assert (Hsets : Forall (fun c => proper c = true) (map ic (filter (isS SEmpty) T)) /\
+                        Forall (PureE v) (map ic (filter (isS SEmpty) T)) /\
+                        Forall (fun c => proper c = true) (map ic (filter (isS SFull) T))).
+        { repeat split; apply Forall_map; apply Forall_forall; intros x Hx; apply filter_In in Hx; destruct Hx as [Hx Hs];
+            unfold isS in Hs; apply status_eqb_eq in Hs; rewrite Forall_forall in HG; destruct (HG x Hx) as (Hp & HS & _); auto.
+          rewrite <- Hs in HS. exact HS. }
+        destruct Hsets as (HpE & HEE & HpF).
+        assert (Hpfull : Forall (fun c => proper c = true)
+                  (match map ic (filter (isS SFull) T) with [] => [] | _ :: _ => [new_node KP (map ic (filter (isS SFull) T))] end)).
+        { destruct (map ic (filter (isS SFull) T)) as [|f0 r0] eqn:EFl; [constructor|]. constructor; [|constructor].
+          apply proper_new_node; [discriminate|]. rewrite <- EFl in *. exact HpF. }
+        destruct PPA as [PPA|PPA]; rewrite PPA in *; simpl nth.
+        -- destruct (HGPA w (or_introl eq_refl)) as (Hp0 & HA0 & HP0). destruct (HGPA w' (or_intror (or_introl eq_refl))) as (Hp1 & HA1 & HP1).
+           now apply U2_else_two.
+        -- destruct (HGPA w' (or_introl eq_refl)) as (Hp0 & HA0 & HP0). destruct (HGPA w (or_intror (or_introl eq_refl))) as (Hp1 & HA1 & HP1).
+           now apply U2_else_two.
+Qed.
